@@ -203,22 +203,27 @@ def payload_tree(tree, *steps):
 
 
 def find_chunk_writer(prog):
-    """the private helper that emits one chunk, found by its role rather than by its name: a function reachable from
-    BodyWriter::write, other than it, that (itself or in its closures) formats a value with write_fmt and copies bytes
-    with write_all, and that takes a `&mut usize` counter"""
+    """the private helper that emits one chunk, found by its role rather than by its name: the function called from
+    BodyWriter::write that (itself, in its closures or in the local functions it calls) formats a value with write_fmt
+    and copies bytes with write_all; if several qualify, the one taking a `&mut usize` counter"""
     from .panics import reachable_from
-    from .mir import callee_path, short
+    from .mir import callee_path, callee_id, short
     bw = prog.find("BodyWriter::write")
     if bw is None:
         return None
-    cands = []
-    for b in reachable_from(prog, [bw]):
-        if b.is_derived or b.kind == "Closure" or b.id == bw.id:
-            continue
-        bodies = [b] + [c for c in prog.bodies.values() if c.kind == "Closure" and c.closure_root == b.id]
-        calls = [short(callee_path(t) or "") for x in bodies for _, t in x.calls()]
-        if any(c.endswith("write_fmt") for c in calls) and any(c.endswith("write_all") for c in calls):
-            ins = [short(x) for x in b.raw.get("sig_inputs", [])]
-            if any(x.replace(" ", "") == "&mutusize" for x in ins):
-                cands.append(b)
-    return cands[0] if len(cands) == 1 else None
+
+    def emits(b):
+        calls = [short(callee_path(t) or "") for x in reachable_from(prog, [b]) for _, t in x.calls()]
+        return any(c.endswith("write_fmt") for c in calls) and any(c.endswith("write_all") for c in calls)
+    direct = []
+    for x in [bw] + [c for c in prog.bodies.values() if c.kind == "Closure" and c.closure_root == bw.id]:
+        for _, t in x.calls():
+            cid = callee_id(t)
+            b = prog.bodies.get(cid) if cid else None
+            if b is not None and not b.is_derived and b.kind != "Closure" and b.id != bw.id and b not in direct and emits(b):
+                direct.append(b)
+    if len(direct) > 1:
+        withctr = [b for b in direct if any(short(x).replace(" ", "") == "&mutusize" for x in b.raw.get("sig_inputs", []))]
+        if len(withctr) == 1:
+            return withctr[0]
+    return direct[0] if len(direct) == 1 else None
